@@ -53,7 +53,7 @@ def special_points(a):
 def gen(ctx, path):
     rnd = random.Random(ctx.seed)
     c = Cmds(path)
-    nr, nl = (40, 25) if ctx.quick else (500, 200)
+    nr, nl = (30, 20) if ctx.quick else (500, 200)
     for (a, b) in EDGES:
         lat = lattice_in(a, [0.0, 77.0, 180.0, 301.5])
         pts = random_in(a, rnd, nr) + rnd.sample(lat, min(nl, len(lat))) + special_points(a)
@@ -61,6 +61,12 @@ def gen(ctx, path):
             pts = [p if p[1] + p[2] <= 1 else (p[0], p[1] / 2, p[2] / 2) for p in pts]
         for p in pts:
             c.add(**{"from": a, "in": p, "path": [b], "mode": "u"})
+    # Okhsl: the saturation -> chroma interpolation of the publication, anchored on the code's own C(eps), C(0.8), C(1)
+    sweep = [2.0 ** -10, 0.8, 1.0, 0.2, 0.5, 0.79, 0.81, 0.9, 0.97] if ctx.quick else [2.0 ** -10, 0.8, 1.0, 0.1, 0.2, 0.4, 0.6, 0.79, 0.81, 0.85, 0.9, 0.95, 0.99]
+    hues = [0.0, 29.2, 60.0, 110.0, 142.5, 180.0, 220.0, 264.05, 300.0, 330.0] + ([] if ctx.quick else [rnd.uniform(0, 360) for _ in range(60)])
+    for h in hues:
+        for l in ([0.15, 0.5, 0.8, 0.97] if ctx.quick else [0.02, 0.1, 0.2, 0.3, 0.4, 0.5, 0.6, 0.7, 0.8, 0.9, 0.97, 0.995]):
+            c.add(op="sweep", **{"from": "okhsl", "in": (h, 0.0, l), "path": ["oklab", "oklch"]}, s=[hx(x) for x in sweep])
     return c.close()
 
 
@@ -76,9 +82,16 @@ def run(ctx):
         res = validate_trace(ctx, "TraceMath", tp, stateless=True, chunk_events=max(120, n // 13 + 1), tag="c02." + b, xmx="2g")
         ctx.cov["traces_validated_against_impl"] += res.events - len(res.rejected)
         add_samples(ctx, tp, n=1, every=997)
-        ctx.cov["distinct_nontrivial"] += count_distinct(tp, lambda e: json.dumps([e.get("nodes"), e["vals"][0]]), lambda e: True)
+        ctx.cov["distinct_nontrivial"] += count_distinct(tp, lambda e: json.dumps([e.get("nodes"), e.get("vals", [e.get("in")])[0]]), lambda e: True)
         for (line, ev, info, _) in res.rejected:
             why = info.strip().strip('"')
+            if ev["ev"] == "sweep":
+                d = {"kind": "sweep", "class": why, "t": ev.get("t"), "from": ev["from"], "to": ev["to"]}
+                what = "%s %s (hue, -, lightness) = %s: %s: chroma over saturations %s is %s" % (
+                    ev.get("t"), ev["from"], [dy_to_float(x) for x in ev["in"]], why, [round(dy_to_float(x), 6) for x in ev["s"]],
+                    [round(dy_to_float(o[1]), 9) for o in ev["out"]])
+                report(ctx, d, what, {"bin": b, "event": ev, "trace_line": line})
+                continue
             d = {"kind": "conv", "class": why, "t": ev.get("t"), "from": ev["nodes"][0], "to": ev["nodes"][-1]}
             what = "%s %s -> %s: %s: input %s gave %s" % (ev.get("t"), d["from"], d["to"], why, [dy_to_float(x) for x in ev["vals"][0]],
                                                           [dy_to_float(x) for x in ev["vals"][-1]] if len(ev["vals"]) > 1 else "-")
@@ -99,7 +112,11 @@ def replay(ctx, path):
     bins = cargo_build(["conv64", "conv32"])
     ev = rp["event"]
     c = Cmds(ctx.p("replay.cmds"))
-    c.add(**{"from": ev["nodes"][0], "in": [dy_to_float(x) for x in ev["vals"][0]], "path": ev["nodes"][1:], "mode": "u"})
+    if ev["ev"] == "sweep":
+        c.add(op="sweep", **{"from": ev["from"], "in": [dy_to_float(x) for x in ev["in"]], "path": ["oklab", "oklch"]},
+              s=[hx(dy_to_float(x)) for x in ev["s"]])
+    else:
+        c.add(**{"from": ev["nodes"][0], "in": [dy_to_float(x) for x in ev["vals"][0]], "path": ev["nodes"][1:], "mode": "u"})
     c.close()
     tp = ctx.p("replay.ndjson")
     run_bin(bins[rp["bin"]], ["--cmds", ctx.p("replay.cmds"), "--out", tp])
